@@ -78,8 +78,10 @@ def run_one(m, baseline_cache, worker=None):
         new = keys - base_keys
         out["reported"] = sorted(new)
         if out["kind"] == "equivalent":
-            out["pass"] = not new
-            out["detail"] = "silent" if not new else "false alarm on a behaviour-preserving edit: %s" % sorted(new)
+            below = sorted(x["key"] + " " + x["msg"] for x in res if x["status"] == "below-floor")
+            out["pass"] = not new and not below
+            out["detail"] = "silent" if out["pass"] else ("false alarm on a behaviour-preserving edit: %s" % sorted(new) if new
+                                                          else "fails closed on a behaviour-preserving edit: %s" % below)
         else:
             missing = [k for k in m.get("expect", []) if not any(k == x or (k.endswith("*") and x.startswith(k[:-1])) for x in new)]
             out["pass"] = not missing and bool(new)
